@@ -73,3 +73,34 @@ Theorem C02_destroyed_value_is_stored_nowhere :
   (forall r p, reg_get s r = RLoose p -> pid p <> x).
 Proof. exact destroyed_not_stored. Qed.
 Print Assumptions C02_destroyed_value_is_stored_nowhere.
+
+(** ** a released allocation is never touched again (Inv/AddrInv.v) *)
+From CR Require Import AddrInv.
+
+(** in every disciplined run, every box that has been released is bit for bit what it was when it
+    was released, for ever; no identity is reused *)
+Theorem C02_released_allocation_is_frozen :
+  forall pri c c', Inv_cfg c -> steps pri c c' -> heap_ext (heap_of (st c)) (heap_of (st c')).
+Proof. exact steps_heap_ext. Qed.
+Print Assumptions C02_released_allocation_is_frozen.
+
+Theorem C02_released_allocation_is_frozen_history :
+  forall fuel h s, Inv s [] -> hist_ok fuel s h = true ->
+  heap_ext (heap_of s) (heap_of (fst (run_history fuel s h))).
+Proof. exact run_history_heap_ext. Qed.
+Print Assumptions C02_released_allocation_is_frozen_history.
+
+(** released at most once, unconditionally (any history, disciplined or not): a released allocation
+    stays released -- the only place that releases ([dec_weak_free]) requires an un-released box *)
+Theorem C02_released_stays_released :
+  forall fuel h s, freed_mono (heap_of s) (heap_of (fst (run_history fuel s h))).
+Proof. exact run_history_freed_mono. Qed.
+Print Assumptions C02_released_stays_released.
+
+(** every handle owned by the frame on top of the stack (the handle being dropped, also an inert one
+    to a collected member) targets an allocation that has not been released *)
+Theorem C02_frame_handle_target_allocated :
+  forall s fr k o, Inv s (fr :: k) -> (0 < w_frame (sw_strong o) fr)%N ->
+  exists b, nth_error (heap_of s) o = Some b /\ freed b = false.
+Proof. exact frame_token_allocated. Qed.
+Print Assumptions C02_frame_handle_target_allocated.
